@@ -252,6 +252,8 @@ class Verdicts:
         if not self.violations:
             return 0
         os.makedirs(REPLAYS, exist_ok=True)
+        allkeys = sorted({k for k, _, _ in self.violations})
+        log("[%s] %d violation(s), %d distinct key(s): %s" % (self.pid, len(self.violations), len(allkeys), allkeys[:80]))
         seen = set()
         for key, summary, replay in self.violations:
             if key in seen:
